@@ -286,7 +286,7 @@ Definition cmd_server_mode (k : skey) (m : imsg) : M unit :=
               end
           end
         else DO pn <- prefix_name m IN
-             reply_svc "472" [pn; String (chr char) EmptyString; "is unknown mode char to me"]) ;;;
+             reply_svc "472" [pn; go_string_of_byte char; "is unknown mode char to me"]) ;;;
       DO n <- replyCount IN
       if Nat.ltb 0 n then retM tt
       else
